@@ -191,8 +191,7 @@ class Ctx:
         except Exception as exc:  # noqa
             import traceback
 
-            frames = traceback.extract_tb(exc.__traceback__)
-            if "/probables/" not in (frames[-1].filename if frames else "").replace("\\", "/"):
+            if s2c.raised_in_library(traceback.extract_tb(exc.__traceback__)) is None:
                 self.dispose(state)
                 raise      # raised by the harness itself: a failure of the machinery (exit 2), never a verdict
             t.fail("C11", "C11.operation_raises", ENGINE, rp(raised=repr(exc), tb=traceback.format_exc()[-1500:]), sig)
